@@ -13,9 +13,9 @@ META = {
 
 def run(ctx):
     vlib.standard_proof_stage(ctx)
-    n = 96 if ctx.quick else 3000
+    n = 64 if ctx.quick else 3000   # per configuration; 2 feature settings x 2 build profiles in both tiers
     for feats, label in (((), "unrolled"), (("no_unroll",), "no_unroll")):
-        for profile in (("debug",) if ctx.quick else ("debug", "release")):
+        for profile in ("debug", "release"):   # release: debug_assert! side effects, overflow wrap
             binary, log = vlib.cargo_build(features=feats, profile=profile)
             if binary is None:
                 raise vlib.CheckError("harness build failed (%s %s): %s" % (label, profile, log[-2000:]))
